@@ -1522,6 +1522,46 @@ theorem splitted_copy_weights (w : List Rat) (k : Nat) (hk : k < w.length) (p : 
     rw [List.getElem?_append_left (by simpa using hi)]
     rw [List.getElem?_set_ne (fun h => hik h.symm)]
 
+/-- **link count of the split network** (the docstring's "6 nodes, 7 links → 7 nodes, 9 links"):
+the adjacency matrix gains one non-zero cell per in-neighbour and one per out-neighbour of `k`
+plus the two cells of the link between the halves; hence, undirected, `n_links' = n_links +
+degree(k) + 1`, and directed, `n_links' = n_links + indegree(k) + outdegree(k) + 2` -/
+theorem splitted_copy_n_links (d : Bool) (a : Nat → Nat → Bool) (N k : Nat) (hs : Simple d N a)
+    (hk : k < N) (w w' : List Rat) (ea ea' : Option (List Rat)) :
+    (cells (N + 1) (splitRel a N k)).length
+        = (cells N a).length + ((List.range N).filter fun i => a i k).length
+          + ((List.range N).filter fun j => a k j).length + 2
+    ∧ (d = false → (ofGraph false (N + 1) (splitRel a N k) w' ea').nLinks
+        = (ofGraph false N a w ea).nLinks + ((List.range N).filter fun j => a k j).length + 1)
+    ∧ (d = true → (ofGraph true (N + 1) (splitRel a N k) w' ea').nLinks
+        = (ofGraph true N a w ea).nLinks + ((List.range N).filter fun i => a i k).length
+          + ((List.range N).filter fun j => a k j).length + 2) := by
+  have hc := cells_split_length a N k hk (hs.irr k hk)
+  refine ⟨hc, ?_, ?_⟩
+  · intro hd
+    subst hd
+    have hs' := splitRel_simple false a N k hs hk
+    have h1 := cells_length_undirected N a (hs.sym rfl) hs.irr
+    have h2 := cells_length_undirected (N + 1) _ (hs'.sym rfl) hs'.irr
+    have hsym : ((List.range N).filter fun i => a i k) = (List.range N).filter fun j => a k j := by
+      apply List.filter_congr
+      intro i hi
+      rw [List.mem_range] at hi
+      exact hs.sym rfl i k hi hk
+    rw [hsym] at hc
+    show (if false = true then (cells (N + 1) (splitRel a N k)).length
+        else (cells (N + 1) (splitRel a N k)).length / 2)
+      = (if false = true then (cells N a).length else (cells N a).length / 2) + _ + 1
+    simp only [Bool.false_eq_true, if_false]
+    omega
+  · intro hd
+    subst hd
+    show (if true = true then (cells (N + 1) (splitRel a N k)).length
+        else (cells (N + 1) (splitRel a N k)).length / 2)
+      = (if true = true then (cells N a).length else (cells N a).length / 2) + _ + _ + 2
+    simp only [if_true]
+    exact hc
+
 /-- the observable consequences on the object returned: `N + 1` nodes, total node weight
 unchanged, mean `= total / (N + 1)`, adjacency = indicator of `splitRel`, and for every name the
 `link_attribute` matrix is the transformed one on the links and 0 elsewhere -/
@@ -1574,6 +1614,10 @@ example : (cells 5 (splitRel exA 4 1)).length = 2 * 5
     ∧ (cells 5 (splitRel exA 4 3)).length = 2 * 3 := by decide
 example : splitNode 4 (-3) = some 1 ∧ splitNode 4 1 = some 1 ∧ splitNode 4 4 = none
     ∧ splitNode 4 (-5) = none := by decide
+/-- `splitted_copy_n_links` on `exA`: node 1 has degree 2, so 2 links become 2 + 2 + 1 = 5 -/
+example : (ofGraph false 5 (splitRel exA 4 1) [] none).nLinks = 5
+    ∧ (ofGraph false 4 exA [] none).nLinks = 2
+    ∧ ((List.range 4).filter fun j => exA 1 j).length = 2 := by decide
 example : splitW exW 1 (1 / 4) = [1, 3 / 2, 3 / 2, 0, 1 / 2] := by norm_num [splitW, exW]
 /-- the hypotheses of `splitted_copy_spec` are satisfiable: a constructed network, no attribute -/
 example : ∃ x σ, ReprsA x σ ∧ splitNode x.core.N (-3) = some 1
